@@ -145,6 +145,10 @@ class Ser:
         if k == 6:
             # comment up to an EOL; comments count as white space
             body = bytes(t.pick(b"abc %()<>[]/#\\\t", "ws.cmt") for _ in range(t.draw(6, "ws.cmtlen")))
+            if t.coin(20, 100, "ws.cmtevil"):
+                # comments that read like file structure: still nothing but white space
+                body = t.pick([b"%EOF", b"PDF-1.4", b" endobj", b"endstream", b" 9 0 obj", b"trailer", b"startxref", b"xref", b" stream", b"%EOF  "], "ws.cmtevil.body")
+                self.features.add("comment-structural")
             start = self.pos()
             self.raw(b"%" + body + t.pick([b"\n", b"\r", b"\r\n"], "ws.cmteol"))
             self.cut_inside(start, self.pos())
@@ -534,9 +538,12 @@ class FileWriter:
                 runs[-1].append(n)
             else:
                 runs.append([n])
+        if self.tape is not None and len(runs) > 1 and self.tape.coin(30, 100, "xrefstm.shuffle"):
+            # subsections need not be listed in ascending order: entries follow the order of /Index
+            runs = self.tape.shuffle(runs, "xrefstm.order")
         w1, w2, w3 = widths
         data = bytearray()
-        for n in nums:
+        for n in [m for run in runs for m in run]:
             kind, a, b = entries[n]
             t = {"f": 0, "n": 1, "c": 2}[kind]
             if w1:
